@@ -22,6 +22,7 @@ var verifHarnesses = map[string]func(){
 	"VerifC17_MergedPathsAreJudgedAfterTheMerge": VerifC17_MergedPathsAreJudgedAfterTheMerge,
 	"VerifC17_OpenIDScopeForAnyScopeList":        VerifC17_OpenIDScopeForAnyScopeList,
 	"VerifC17_AtMostOneOIDCFilterPerChain":       VerifC17_AtMostOneOIDCFilterPerChain,
+	"VerifC17_AcceptedConfigurationKeepsItsURIs": VerifC17_AcceptedConfigurationKeepsItsURIs,
 }
 
 const (
@@ -268,6 +269,54 @@ func VerifC17_AtMostOneOIDCFilterPerChain() {
 	vn.Cover("C17/two-oidc-filters-apart", vn.And(wantOIDC >= 2, nf >= 3))
 	vn.Assert("C17/more-than-one-oidc-filter-is-rejected", vn.Or(wantOIDC <= 1, got == nil))
 	vn.Assert("C17/one-oidc-filter-among-mocks-is-accepted", vn.Or(wantOIDC > 1, got != nil))
+}
+
+// VerifC17_AcceptedConfigurationKeepsItsURIs: loading validates URIs, it does not rewrite them. A
+// configuration whose URIs are valid but not in any canonical spelling (upper-case scheme, a
+// character a serialiser would escape, an own query) is accepted and comes out with every URI
+// byte for byte as written -- the redirect URI registered at the provider, the endpoints and the
+// logout target are compared as strings elsewhere (C13, C04).
+func VerifC17_AcceptedConfigurationKeepsItsURIs() {
+	const (
+		callback = "HTTPS://App.example.com/a|b/callback"
+		authz    = "HTTPS://idp.example.com/auth?tenant=a|b"
+		token    = "https://idp.example.com/token/"
+		logoutTo = "HTTPS://idp.example.com/bye?x=%7e"
+	)
+	o := &oidcv1.OIDCConfig{
+		AuthorizationUri: authz, TokenUri: token, CallbackUri: callback, JwksConfig: &oidcv1.OIDCConfig_Jwks{Jwks: "keys"},
+		ClientId: "client", ClientSecretConfig: &oidcv1.OIDCConfig_ClientSecret{ClientSecret: "s"},
+		IdToken: &oidcv1.TokenConfig{Header: "authorization", Preamble: "Bearer"}, Logout: &oidcv1.LogoutConfig{Path: "/logout", RedirectUri: logoutTo},
+	}
+	cfg := &configv1.Config{ListenAddress: "0.0.0.0", ListenPort: 8080, HealthListenPort: 8081, LogLevel: "info", Threads: 1,
+		Chains: []*configv1.FilterChain{{Name: "c", Filters: []*configv1.Filter{{Type: &configv1.Filter_Oidc{Oidc: o}}}}}}
+	l := &LocalConfigFile{}
+	if vn.Symbolic() {
+		vn.StageProto(cfg)
+		l.path = "staged"
+	} else {
+		b, err := protojson.Marshal(cfg)
+		if err != nil {
+			panic(err)
+		}
+		f, err := os.CreateTemp("", "verif-config-*.json")
+		if err != nil {
+			panic(err)
+		}
+		_, _ = f.Write(b)
+		_ = f.Close()
+		defer os.Remove(f.Name())
+		l.path = f.Name()
+	}
+	err := l.Validate()
+	vn.Assert("C17/unusual-but-valid-uris-are-accepted", err == nil)
+	if err != nil {
+		return
+	}
+	got := l.Config.Chains[0].Filters[0].GetOidc()
+	vn.Cover("C17/uris-audited", true)
+	vn.Assert("C17/accepted-configuration-keeps-its-uris", vn.And(got.GetCallbackUri() == callback, got.GetAuthorizationUri() == authz,
+		got.GetTokenUri() == token, got.GetLogout().GetRedirectUri() == logoutTo))
 }
 
 // VerifC17_DefaultAndOverride: a default configuration merged with one override filter.
